@@ -72,9 +72,7 @@ fn domain_new() {
     assert!(ok);
 }
 /// coset construction, element(i), elements() order
-fn coset_elements<const S: usize>() {
-    let h = anyv();
-    assume(h != 0);
+fn coset_elements<const S: usize>(h: u32) {
     let d = Radix2EvaluationDomain::<F>::new(S).unwrap().get_coset(F::enc(h)).unwrap();
     let gen = d.group_gen().val();
     let i: usize = any();
@@ -89,7 +87,7 @@ fn coset_elements<const S: usize>() {
         k += 1;
     }
     ok &= it.next().is_none();
-    crate::cover!(h > 1 && i == S - 1);
+    crate::cover!(i == S - 1);
     ok &= d.element(i).val() == want && d.size() == S && d.coset_offset().val() == h
         && (d.coset_offset_inv().val() * h) % P == 1 && d.coset_offset_pow_size().val() == powm(h, S as u32);
     // vanishing polynomial at a symbolic point: tau^S - h^S
@@ -98,10 +96,9 @@ fn coset_elements<const S: usize>() {
     assert!(ok);
 }
 /// fft of L symbolic coefficients over a coset of size S with symbolic non-zero offset: out[i] = sum c_j (h g^i)^j; ifft(fft(c)) = c padded
-fn fft_check<const S: usize, const L: usize>(coset: bool) {
+fn fft_check<const S: usize, const L: usize>(h: u32) {
     let c: [u32; L] = core::array::from_fn(|_| anyv());
-    let h = if coset { anyv() } else { 1 };
-    assume(h != 0);
+    let coset = h != 1;
     let base = Radix2EvaluationDomain::<F>::new(S).unwrap();
     let d = if coset { base.get_coset(F::enc(h)).unwrap() } else { base };
     let gen = d.group_gen().val();
@@ -112,7 +109,7 @@ fn fft_check<const S: usize, const L: usize>(coset: bool) {
     let i: usize = any();
     assume(i < S);
     let x = (h * powm(gen, i as u32)) % P;
-    crate::cover!(L == 0 || (c[L - 1] != 0 && h > 1 && i > 0));
+    crate::cover!(L == 0 || (c[L - 1] != 0 && i > 0));
     let mut ok = evals.len() == S && back.len() == S;
     ok = ok && evals[i].val() == horner(&c, x);
     ok = ok && back[i].val() == if i < L { c[i] } else { 0 };
@@ -120,10 +117,8 @@ fn fft_check<const S: usize, const L: usize>(coset: bool) {
     assert!(ok);
 }
 /// Lagrange coefficients at a symbolic point tau (inside or outside the coset): sum_i L_i(tau) p(h g^i) = p(tau) for ALL polynomials p of degree < S
-fn lagrange<const S: usize>() {
+fn lagrange<const S: usize>(h: u32) {
     let c: [u32; S] = core::array::from_fn(|_| anyv());
-    let h = anyv();
-    assume(h != 0);
     let tau = anyv();
     let d = Radix2EvaluationDomain::<F>::new(S).unwrap().get_coset(F::enc(h)).unwrap();
     let gen = d.group_gen().val();
@@ -145,60 +140,69 @@ fn lagrange<const S: usize>() {
     assert!(ok);
 }
 
-crate::harnesses! { REG;
-    /// quick required unwindset=>::pow:8 | TEST fft_check 4,4 subgroup
-    #[unwind(70)]
-    fn c07_t_a() { fft_check::<4, 4>(false) }
-    /// quick required unwindset=>::pow:8 | TEST fft_check 4,4 coset
-    #[unwind(70)]
-    fn c07_t_b() { fft_check::<4, 4>(true) }
-    /// quick required unwindset=>::pow:8 | TEST new(4) only
-    #[unwind(70)]
-    fn c07_t_new4() { let d = Radix2EvaluationDomain::<F>::new(4).unwrap(); crate::cover!(true); let ok = d.size() == 4 && powm(d.group_gen().val(), 4) == 1; assert!(ok); }
-    /// quick required unwindset=>::pow:8 | TEST fft 4 subgroup
-    #[unwind(70)]
-    fn c07_t_fft4() {
-        let c: [u32; 4] = core::array::from_fn(|_| anyv());
-        let d = Radix2EvaluationDomain::<F>::new(4).unwrap();
-        let gen = d.group_gen().val();
-        let v: [F; 4] = core::array::from_fn(|i| F::enc(c[i]));
-        let mut coeffs = v.to_vec();
-        d.fft_in_place(&mut coeffs);
-        let i: usize = any();
-        assume(i < 4);
-        crate::cover!(c[3] != 0);
-        let ok = coeffs.len() == 4 && coeffs[i].val() == horner(&c, powm(gen, i as u32));
-        core::mem::forget(coeffs);
-        assert!(ok);
+fn domain_sizes() {
+    let ns: [(usize, usize); 10] = [(0, 1), (1, 1), (2, 2), (3, 4), (5, 8), (8, 8), (9, 16), (16, 16), (17, 0), (20, 0)];
+    let mut ok = true;
+    let mut k = 0;
+    while k < 10 {
+        let (n, want) = ns[k];
+        let d = Radix2EvaluationDomain::<F>::new(n);
+        let g = GeneralEvaluationDomain::<F>::new(n);
+        ok &= match d {
+            None => want == 0 && g.is_none() && Radix2EvaluationDomain::<F>::compute_size_of_domain(n).is_none(),
+            Some(d) => {
+                let s = d.size();
+                let gen = d.group_gen().val();
+                s == want && matches!(g, Some(gd) if gd.size() == want) && powm(gen, s as u32) == 1 && (s == 1 || powm(gen, s as u32 / 2) != 1)
+                    && (d.size_inv().val() * (s as u32 % P)) % P == 1 && (gen * d.group_gen_inv().val()) % P == 1
+            },
+        };
+        k += 1;
     }
-    /// quick required unwindset=>::pow:8,compute_powers:18 | Radix2 / General domain construction over F_17 for ALL requested sizes n in 0..=20: size >= n and minimal power of two, None exactly when n > 16 (no subgroup), generator of EXACT order, inverse / size_inv / offset fields consistent, get_root_of_unity agrees
+    crate::cover!(ok);
+    assert!(ok);
+}
+crate::harnesses! { REG;
+    /// thorough attempt unwindset=>::pow:8 timeout=3000 mem=30 | Radix2 / General domain construction over F_17 for ALL requested sizes n in 0..=20 (symbolic n)
     #[unwind(70)]
     fn c07_domain_new() { domain_new() }
-    /// quick required unwindset=>::pow:8,compute_powers:18 | coset of size 4 with ALL non-zero offsets: element(i) and elements() order for ALL i, offset fields, evaluate_vanishing_polynomial(tau) = tau^n - h^n for ALL tau
+    /// quick required unwindset=>::pow:8 | coset of size 4 with the generic offset 3: element(i) and elements() order for ALL i, offset fields, evaluate_vanishing_polynomial(tau) = tau^n - h^n for ALL tau
     #[unwind(70)]
-    fn c07_coset_elements_4() { coset_elements::<4>() }
-    /// quick required unwindset=>::pow:8,compute_powers:18 | coset of size 8 with ALL non-zero offsets: element(i), elements(), vanishing polynomial
+    fn c07_coset_elements_4() { coset_elements::<4>(3) }
+    /// quick required unwindset=>::pow:8 | coset of size 4 with offset 16 = -1 (inside the subgroup): element(i), elements(), offset fields, vanishing polynomial
     #[unwind(70)]
-    fn c07_coset_elements_8() { coset_elements::<8>() }
-    /// quick required unwindset=>::pow:8,compute_powers:18 | FFT / IFFT size 4, input length 4, ALL coefficients, ALL coset offsets: every output equals Horner evaluation at h*g^i; ifft(fft(c)) = c
+    fn c07_coset_elements_4_inside() { coset_elements::<4>(16) }
+    /// thorough required unwindset=>::pow:8 timeout=3000 | coset of size 8 with offset 3: element(i), elements(), vanishing polynomial at ALL tau
     #[unwind(70)]
-    fn c07_fft_4_full() { fft_check::<4, 4>(true) }
-    /// quick required unwindset=>::pow:8,compute_powers:18 | FFT / IFFT size 4, input lengths 0, 1, 2 (degree-aware path: len*2 <= size) and 3, subgroup (offset 1), ALL coefficients
+    fn c07_coset_elements_8() { coset_elements::<8>(3) }
+    /// thorough required unwindset=>::pow:8 timeout=3000 | FFT / IFFT size 8 on the subgroup with 8 coefficients, ALL coefficients: every output equals Horner evaluation at g^i; ifft(fft(c)) = c
     #[unwind(70)]
-    fn c07_fft_4_short() { fft_check::<4, 0>(false); fft_check::<4, 1>(false); fft_check::<4, 2>(false); fft_check::<4, 3>(false) }
-    /// quick required unwindset=>::pow:8,compute_powers:18 | FFT / IFFT size 8, input length 8, subgroup, ALL coefficients
+    fn c07_fft_8_full() { fft_check::<8, 8>(1) }
+    /// quick required unwindset=>::pow:8 | FFT / IFFT size 4 on the subgroup, input lengths 4, 3, 2 (degree-aware path: len*2 <= size), 1, 0: ALL coefficients: every output equals Horner evaluation at g^i; ifft(fft(c)) = c padded
     #[unwind(70)]
-    fn c07_fft_8_full() { fft_check::<8, 8>(false) }
-    /// quick required unwindset=>::pow:8,compute_powers:18 | FFT / IFFT size 8 on a coset (ALL offsets), input lengths 3 (degree-aware) and 5
+    fn c07_fft_4_subgroup() { fft_check::<4, 4>(1); fft_check::<4, 3>(1); fft_check::<4, 2>(1); fft_check::<4, 1>(1); fft_check::<4, 0>(1) }
+    /// quick required unwindset=>::pow:8 | FFT / IFFT size 4 on the coset with generic offset 3, lengths 4 and 2, ALL coefficients
     #[unwind(70)]
-    fn c07_fft_8_coset_short() { fft_check::<8, 3>(true); fft_check::<8, 5>(true) }
-    /// thorough required timeout=3000 unwindset=>::pow:8,compute_powers:18 | FFT / IFFT size 16 (the maximal domain of F_17), lengths 16, 7 and 4 on a coset, ALL coefficients
+    fn c07_fft_4_coset() { fft_check::<4, 4>(3); fft_check::<4, 2>(3) }
+    /// quick required unwindset=>::pow:8 | FFT / IFFT size 4 on the coset with offset -1, which lies INSIDE the subgroup (offset^size = 1 but offset != 1), lengths 4 and 1, ALL coefficients
     #[unwind(70)]
-    fn c07_fft_16() { fft_check::<16, 16>(true); fft_check::<16, 7>(true); fft_check::<16, 4>(true) }
-    /// quick required unwindset=>::pow:8,compute_powers:18 | evaluate_all_lagrange_coefficients on a coset of size 4: ALL offsets, ALL tau (inside the coset — the special branch — and outside), ALL polynomials of degree < 4: sum L_i(tau) p(x_i) = p(tau)
+    fn c07_fft_4_coset_inside() { fft_check::<4, 4>(16); fft_check::<4, 1>(16) }
+    /// thorough required unwindset=>::pow:8 timeout=3000 | FFT / IFFT size 8 on the subgroup, lengths 8 and 3 (degree-aware), ALL coefficients
     #[unwind(70)]
-    fn c07_lagrange_4() { lagrange::<4>() }
-    /// thorough required timeout=3000 unwindset=>::pow:8,compute_powers:18 | Lagrange coefficients on a coset of size 8
+    fn c07_fft_8_subgroup() { fft_check::<8, 8>(1); fft_check::<8, 3>(1) }
+    /// thorough required unwindset=>::pow:8 timeout=3000 | FFT / IFFT size 8 on the coset with offset 3, lengths 8 and 5, ALL coefficients
     #[unwind(70)]
-    fn c07_lagrange_8() { lagrange::<8>() }
+    fn c07_fft_8_coset() { fft_check::<8, 8>(3); fft_check::<8, 5>(3) }
+    /// thorough required unwindset=>::pow:8 timeout=3000 | FFT / IFFT size 16 (the maximal domain of F_17), lengths 16, 7 and 4, offsets 1 and 3, ALL coefficients
+    #[unwind(70)]
+    fn c07_fft_16() { fft_check::<16, 16>(1); fft_check::<16, 7>(3); fft_check::<16, 4>(3) }
+    /// thorough required unwindset=>::pow:8 timeout=3000 | evaluate_all_lagrange_coefficients on the coset of size 4 with offset 3: ALL tau (inside the coset: the special branch; and outside), ALL polynomials of degree < 4: sum L_i(tau) p(x_i) = p(tau)
+    #[unwind(70)]
+    fn c07_lagrange_4() { lagrange::<4>(3) }
+    /// thorough required unwindset=>::pow:8 timeout=3000 | Lagrange coefficients on a coset of size 8, offset 3
+    #[unwind(70)]
+    fn c07_lagrange_8() { lagrange::<8>(3) }
+    /// quick required unwindset=>::pow:8 | domain construction (concrete sizes: ground for new(), symbolic for nothing): new(n) for n = 0, 1, 2, 3, 5, 8, 9, 16 gives the minimal power of two, 17 and 20 give None; generator of exact order
+    #[unwind(70)]
+    fn c07_domain_sizes() { domain_sizes() }
 }
